@@ -16,6 +16,8 @@ pub use src::*;
 pub mod env;
 pub mod vm;
 
+#[cfg(feature = "vo_bit")]
+pub mod c08_vobit;
 pub mod c17_forwarding;
 pub mod c18_bits;
 pub mod c20_side;
@@ -38,6 +40,8 @@ pub mod c40_groupby;
 /// Table of all bodies for the native replayer.
 pub fn replay_table() -> Vec<(&'static str, fn(&mut Src))> {
     let mut v: Vec<(&'static str, fn(&mut Src))> = Vec::new();
+    #[cfg(feature = "vo_bit")]
+    v.extend_from_slice(c08_vobit::TABLE);
     v.extend_from_slice(c17_forwarding::TABLE);
     v.extend_from_slice(c18_bits::TABLE);
     v.extend_from_slice(c20_side::TABLE);
